@@ -9,6 +9,8 @@ from .interp import EXC, FuncModel
 from .npmodel import VBytes, VBytesIO, VDType, VInFile, VNd, to_bytes
 from .stream import AField, ALit, APad, ARaw, AText, InStream, alen, slen, stream_eq_goals
 from .verify import Task
+from .symlayout import in_range as _in_range
+from .core import VList
 
 
 def _outcome(interp, call):
@@ -308,6 +310,33 @@ def tdftype_tasks():
             ob = (ob[0], VBytes(fa.atoms)) if ob[0] == "return" else ob
             compare_outcomes(interp, f"TDF.{nm}.bwrite(array)", ob, ("return", VBytes(atoms)))
         out.append(Task(f"TDF.{nm}.bwrite(array)", "basictdf.tdfTypes.TdfType.bwrite", ["C01", "C06", "C02"], t_bwrite, kind="prim"))
+
+        # read / write themselves: bread / bwrite (above) call them through their contracts, so their bodies are proved here
+        def t_read(interp, get=get, nm=nm):
+            ctx = interp.ctx
+            self_ = get(interp)
+            bt = self_.fields["btype"]
+            n = z3.Const("n", I)
+            ctx.assume(n >= 0)
+            atoms, exp = _sym_items(ctx, bt, n, "items")
+            f = meth(interp, self_, "read")
+            interp.inline_only.add(f.qualname)
+            ob = _outcome(interp, lambda: interp.call(f, [self_, VBytes(atoms)], {}))
+            compare_outcomes(interp, f"TDF.{nm}.read(bytes)", ob, ("return", exp))
+        out.append(Task(f"TDF.{nm}.read(bytes)", "basictdf.tdfTypes.TdfType.read", ["C01", "C06", "C02", "C12"], t_read, kind="prim"))
+
+        def t_write(interp, get=get, nm=nm):
+            ctx = interp.ctx
+            self_ = get(interp)
+            bt = self_.fields["btype"]
+            n = z3.Const("n", I)
+            ctx.assume(n >= 0)
+            atoms, arr = _sym_items(ctx, bt, n, "items")
+            f = meth(interp, self_, "write")
+            interp.inline_only.add(f.qualname)
+            ob = _outcome(interp, lambda: interp.call(f, [self_, arr], {}))
+            compare_outcomes(interp, f"TDF.{nm}.write(array)", ob, ("return", VBytes(atoms)))
+        out.append(Task(f"TDF.{nm}.write(array)", "basictdf.tdfTypes.TdfType.write", ["C01", "C06", "C02"], t_write, kind="prim"))
     # scalar writes, skip / pad / bpad / nBytes on the scalar types
     for nm in ["tdfTypes.i32", "tdfTypes.u32", "tdfTypes.i16", "tdfTypes.u16", "tdfTypes.f32", "tdfTypes.f64"]:
         modn, attr = nm.split(".")
@@ -328,6 +357,32 @@ def tdftype_tasks():
             w = x.w if isinstance(x, VFloat) else x
             compare_outcomes(interp, f"TDF.{nm}.bwrite(scalar)", ob, ("return", VBytes([AField(bt.kind, 1, Seq.of([w]))])))
         out.append(Task(f"TDF.{nm}.bwrite(scalar)", "basictdf.tdfTypes.TdfType.bwrite", ["C01", "C06"], t_scalar, kind="prim"))
+
+        def t_write_other(interp, get=get, nm=nm):
+            """write of a Python scalar and of a Python list of scalars (what the blocks pass for counts and channel maps)"""
+            ctx = interp.ctx
+            self_ = get(interp)
+            bt = self_.fields["btype"]
+            f, _ = self_.cls.lookup("write")
+            interp.inline_only.add(f.qualname)
+            x = VFloat(z3.Const("x", I), bt.kind) if bt.kind in ("f4", "f8") else z3.Const("x", I)
+            if not isinstance(x, VFloat):
+                ctx.assume(_in_range(bt.kind, x))
+            ob = _outcome(interp, lambda: interp.call(f, [self_, x], {}))
+            w = x.w if isinstance(x, VFloat) else x
+            compare_outcomes(interp, f"TDF.{nm}.write(scalar)", ob, ("return", VBytes([AField(bt.kind, 1, Seq.of([w]))])))
+            n = z3.Const("n", I)
+            ctx.assume(n >= 0)
+            it = z3.Function("list_items", I, I)
+            if bt.kind in ("f4", "f8"):
+                lst = VList(None, n, lambda k: VFloat(it(zint(k)), bt.kind), label="values")
+            else:
+                k0 = z3.Const("k!list", I)
+                ctx.assume(z3.ForAll([k0], _in_range(bt.kind, it(k0))))
+                lst = VList(None, n, lambda k: it(zint(k)), label="values")
+            ob = _outcome(interp, lambda: interp.call(f, [self_, lst], {}))
+            compare_outcomes(interp, f"TDF.{nm}.write(list)", ob, ("return", VBytes([AField(bt.kind, n, Seq(n, lambda i: it(zint(i))))])))
+        out.append(Task(f"TDF.{nm}.write(scalar,list)", "basictdf.tdfTypes.TdfType.write", ["C01", "C06", "C02"], t_write_other, kind="prim"))
 
         def t_misc(interp, get=get, nm=nm):
             ctx = interp.ctx
